@@ -418,6 +418,27 @@ func c18Programs(tier string) []*Spec {
 			}
 		}
 	}
+	// a running bar pinned with a large negative priority stays below the popped bars all the same
+	for _, rf := range []string{"manual", "auto"} {
+		sp := &Spec{Name: "c18-negative-priority", Refresh: rf, Q: -1, Pop: true}
+		sp.Bars = []BarSpec{{Total: 9, HasPrio: true, Prio: -1000}, {Total: 1}, {Total: 1}}
+		sp.Main = []Op{{K: "add", B: 0}, {K: "add", B: 1}, {K: "add", B: 2}}
+		var ops []Op
+		for _, b := range []int{1, 2} {
+			ops = append(ops, Op{K: "incr", B: b, N: 1})
+			if rf == "manual" {
+				ops = append(ops, Op{K: "refresh"}, Op{K: "refresh"}, Op{K: "refresh"})
+			} else {
+				ops = append(ops, Op{K: "barwait", B: b}, Op{K: "sleep", N: 250})
+			}
+		}
+		ops = append(ops, Op{K: "incr", B: 0, N: 9})
+		if rf == "manual" {
+			ops = append(ops, Op{K: "refresh"}, Op{K: "refresh"}, Op{K: "refresh"}, Op{K: "refresh"})
+		}
+		sp.Clients = [][]Op{ops}
+		out = append(out, sp)
+	}
 	for _, ms := range []int64{50, 150, 250, 350} {
 		// auto refresh every 100 ms of virtual time: the change lands in each of the windows after the completion
 		sp := &Spec{Name: fmt.Sprintf("c18-prio-window-auto-%dms", ms), Refresh: "auto", Q: -1, Pop: true}
